@@ -119,22 +119,24 @@ def tmp_worktree(repo: str | Path = ".", ref: str = "HEAD") -> Iterator[Path]:
     with TemporaryDirectory(prefix=f"{_WORKTREE_PREFIX}{repo_name}-{normref}-") as tmp_dir:
         location = os.path.join(tmp_dir, normref)  # noqa: PTH118
         tmp_branch = f"griffe-{normref}"  # Temporary branch name must not already exist.
-        process = subprocess.run(
-            ["git", "-C", repo, "worktree", "add", "-b", tmp_branch, location, ref],
-            capture_output=True,
-            check=False,
-        )
-        if process.returncode:
-            raise RuntimeError(f"Could not create git worktree: {process.stderr.decode()}")
-
         try:
-            yield Path(location)
-        finally:
-            # Force removal: loading can leave untracked files in the worktree (bytecode caches for example).
-            subprocess.run(
-                ["git", "-C", repo, "worktree", "remove", "--force", location],
-                stdout=subprocess.DEVNULL,
+            process = subprocess.run(
+                ["git", "-C", repo, "worktree", "add", "-b", tmp_branch, location, ref],
+                capture_output=True,
                 check=False,
             )
-            subprocess.run(["git", "-C", repo, "worktree", "prune"], stdout=subprocess.DEVNULL, check=False)
-            subprocess.run(["git", "-C", repo, "branch", "-D", tmp_branch], stdout=subprocess.DEVNULL, check=False)
+            if process.returncode:
+                raise RuntimeError(f"Could not create git worktree: {process.stderr.decode()}")
+            yield Path(location)
+        finally:
+            # Nothing to clean up if the worktree was not created, for example when the reference
+            # is unknown or when a branch with the temporary name already exists (it is not ours).
+            if os.path.exists(location):
+                # Force removal: loading can leave untracked files in the worktree (bytecode caches for example).
+                subprocess.run(
+                    ["git", "-C", repo, "worktree", "remove", "--force", location],
+                    stdout=subprocess.DEVNULL,
+                    check=False,
+                )
+                subprocess.run(["git", "-C", repo, "worktree", "prune"], stdout=subprocess.DEVNULL, check=False)
+                subprocess.run(["git", "-C", repo, "branch", "-D", tmp_branch], stdout=subprocess.DEVNULL, check=False)
